@@ -5,6 +5,7 @@ import Driver.Seq
 import Driver.HintE
 import Driver.Proto
 import Driver.Conc
+import Driver.HTreeE
 
 open Driver
 
@@ -19,6 +20,7 @@ def main (args : List String) : IO UInt32 := do
     | ["hint"] => Driver.HintE.run lines
     | ["proto"] => Driver.Proto.run lines
     | ["conc"] => Driver.Conc.run lines
+    | ["htree"] => Driver.HTreeE.run lines
     | _ => do IO.eprintln "usage: driver <engine> < trace"; return 2
   IO.println s!"SUMMARY lines={lines.size} checked={rep.checked} diffs={rep.diffs}"
   return 0
